@@ -33,7 +33,7 @@ PROPS = {
         rule="ctx: every contributor pattern of length 1..6 (thorough 8) over 3 contexts through the real allSameContext/parentSpans "
              "(exhaustive; non-trivial = more than one distinct context); sys: runs of the real processor with 2-5 concurrent callers "
              "in distinct/shared contexts, partial sends, cancellations at random points, a downstream consumer that honours "
-             "cancellation (non-trivial = at least one export; distinct by configuration+outcome); a run in which callers under live contexts never return while other requests had their contexts cancelled is charged to C18 (live-callers-stuck-after-foreign-cancel)",
+             "cancellation (non-trivial = at least one export; distinct by configuration+outcome); a run in which callers under live contexts never return while other requests had their contexts cancelled is charged to C18 (live-callers-stuck-after-foreign-cancel); 60% of the runs give three of four caller contexts their own remote / unsampled span and install an SDK tracer provider with a span recorder: the recorded export span of every multi-context export must link to each contributor span (contributor-span-not-linked)",
         trusted_base=BP_TB,
         assumptions=["a context label stands for one context.Context value (the harness gives every context object its own label)",
                      "span links are observed at function level (parentSpans) and through the export_start hook, not through a tracing SDK"],
@@ -89,7 +89,7 @@ PROPS = {
     "C11": dict(
         runs=[dict(harness="bp", name="batch",
                  args=lambda tier, seed, casedir, coq: ["batch", "--n", str(q(tier, 300, 6000)), "--seed", str(seed)], coq_timeout=3000),
-            bp_sys("C11", 60, 2000),
+            bp_sys("C11", 140, 2000),
             dict(harness="bp", name="sysrace", race=True, tiers=("thorough",),
                  args=lambda tier, seed, casedir, coq: ["sys", "--focus", "C11", "--n", "300", "--seed", str(seed)], timeout=3000)],
         rule="whole-processor runs with max_concurrency in {0,1,2,3}, 2-7 callers, random export latencies/failures/cancellations, Shutdown while items are "
@@ -109,7 +109,7 @@ PROPS = {
              "refusal flag, reported request and in-use after every operation compared with the model; memlimit: real producer histories (1-4 trace batches) "
              "decoded by the real consumer under 10 limits from 16 B to 70 MiB, outcome class, errors.Is recognisability, published in-use (own MeterProvider), "
              "equality of decoded telemetry across accepting limits, monotonicity of the first refused batch in the limit; schema-switch cases (a big logs batch, then a small one re-announcing every payload type "
-             "under new schema ids — the memory it needs does not depend on the first) swept over 16 limits: once decodable, decodable under every larger limit; after a refusal every later valid batch must be decoded or refused with an error recognisable as the memory-limit error (later-refusal-not-recognisable)",
+             "under new schema ids — the memory it needs does not depend on the first) swept over 16 limits: once decodable, decodable under every larger limit; after a refusal every later valid batch must be decoded or refused with an error recognisable as the memory-limit error (later-refusal-not-recognisable); a third of the cases are histories built around a refusal forced at a chosen related table X (all 49 pairs X, Y: Y behind X in the next batch, Y alone in the one after)",
         trusted_base=["modelled, not verified: arrow-go (its recover turning the LimitError panic into Reader.Err, its allocation sequence being independent of the limit), "
                       "Go errors.Is/As over %w / werror.Wrap chains"],
         assumptions=["block sizes and limits below 2^62 (Go ints; the default limit is 70 MiB)", "after a refused batch the sub-stream is desynchronised: later batches only need not panic"],
@@ -121,7 +121,7 @@ PROPS = {
              "thresholds 0..2.5) on the real transform.DictionaryField, index cap / cumulative total / event kind after every op compared with the model; "
              "rec: the real RecordBuilderExt on a 2-column schema (Dictionary8, Dictionary16) driven through the same retry loop as arrow_record.recordBuilder over 1-5 batch "
              "histories with fresh/reused values and externally requested schema updates, outcome per batch (views, attempts, or budget exhausted) compared with the model; "
-             "prod: the real producer under every dictionary limit option x 3 thresholds on streams with unique span names, every dictionary column of every transmitted record inspected; histories with every string column of every record unbounded at once, after an opening batch that leaves all optional struct children absent; every dictionary column of every transmitted record must carry the id under which the overflow detection visits it (prod_mismatch)",
+             "prod: the real producer under every dictionary limit option x 3 thresholds on streams with unique span names, every dictionary column of every transmitted record inspected; histories with every string column of every record unbounded at once, after an opening batch that leaves all optional struct children absent; every dictionary column of every transmitted record must carry the id under which the overflow detection visits it (prod_mismatch); under the 32/64-bit limits, histories with only the 32-bit enum columns unbounded (8 x 25000 items, no other schema update)",
         trusted_base=["modelled, not verified: arrow-go dictionary builders (memo table kept across records of one builder, emptied when the builder is recreated)",
                       "the float comparison card/total < threshold is represented by an exact rational (midpoint rounding argument, DESIGN.md 6/C13)"],
         assumptions=["counts below 2^50", "termination of the retry loop is not part of C13 (C04/C08)"],
@@ -137,7 +137,7 @@ PROPS = {
              "from the library's own helpers and the model must reproduce the ciphertext byte for byte; obf: generated traces/logs/metrics (attributes of every value type incl. "
              "nested lists/maps, empty, one-byte and non-ASCII strings, empty keys) through real processor instances in both modes (encrypt_all; lists with listed and unlisted keys "
              "present, also an empty list), 1-3 documents per instance; input and output aligned by the model to extract the substitution table, which must be one length-preserving "
-             "injective function per instance, and the model run with that table must reproduce the output exactly; the generator draws every pdata field of the three signals (flags, ids, dropped counts, exemplars with filtered attributes, metric metadata, bucket lists, quantiles) and every field the processor must not touch is part of the untouched-field markers",
+             "injective function per instance, and the model run with that table must reproduce the output exactly; the generator draws every pdata field of the three signals (flags, ids, dropped counts, exemplars with filtered attributes, metric metadata, bucket lists, quantiles) and every field the processor must not touch is part of the untouched-field markers; a third of the calls run under a context that ends at its n-th Err() look: whatever is forwarded must be obfuscated all the same",
         trusted_base=["SHA-256 and the key are abstracted into an arbitrary length-preserving round function F (the theorems hold for every F)",
                       "pdata Map/Slice semantics (Range order = insertion order, Put overwrites in place, CopyTo replaces) modelled as list operations"],
         assumptions=["attribute maps have distinct keys (pdata invariant)", "list mode: a renamed listed key does not collide with another key of the same map (visible hypothesis of C17_structure_list)"],
@@ -151,7 +151,7 @@ PROPS = {
         rule="gen: every explicit panic(...) call of the producer/consumer packages extracted with go/ast from the current source (must be within the classified baseline); "
              "robust: histories of 1-5 generated batches (traces, logs, metrics, or interleaved) with degenerate shapes (all-zero / empty bucket lists and bounds, empty metrics, "
              "unset values, empty keys, nested values, boundary numerics) on one producer, each outcome classified ok/error/panic(site); boundary: 65535 and 65537 attribute-bearing spans, "
-             "65537 log records, 65537 metrics, a warm producer given 65537 resources and then a valid batch, the dictionary reset regime at an 8-bit limit; a third of the histories draw strings that are not valid UTF-8; a tenth open with an all-zero batch; boundary cases with extreme sizes (70 KB names, 2 MB values, 20001 children of one item) under default, WithSchemaStats and all diagnostic options",
+             "65537 log records, 65537 metrics, a warm producer given 65537 resources and then a valid batch, the dictionary reset regime at an 8-bit limit; a third of the histories draw strings that are not valid UTF-8; a tenth open with an all-zero batch; boundary cases with extreme sizes (70 KB names, 2 MB values, 20001 children of one item) under default, WithSchemaStats and all diagnostic options; resources A, B, A, C, B with scopes x, y, x under every span ordering; 60000-item batches that need a schema update",
         trusted_base=["the encoders' column appends are not modelled statement by statement (result classes are the tie); the panic-site extractor (go/ast) and the classification by rule in Stream/PanicBaseline.v",
                       "implicit panics (nil dereference, index, type assertion) are found by the harness only"],
         assumptions=["optional-field discovery needs at most 3 rebuilds on the prototype schemas (depth of optional nesting), leaving 2 of the 5 allowed retries to dictionary events"],
@@ -174,7 +174,7 @@ PROPS = {
         rule="stream histories of 2-7 batches on one producer: one signal or interleaved traces/logs/metrics, options default / no zstd / no dictionary / 8-bit dictionary limit (overflow) / 8-bit limit with "
              "reset threshold 1.0 (reset), batches large enough to cross the dictionary limit; per payload the (type, stream key = [prefix:]SchemaToID) is fed to the model whose predicted batch ids and schema "
              "ids must equal the observed ones; the property is evaluated on the real batches (first payload main, types unique, related payloads non-empty, schema id -> (type, key) a function, closed ids not "
-             "reused) and an independent ipc.Reader per schema id must decode every payload to the record that was written; statistics reads (GetAndResetStats) between batches are ops of the history given to the model (Batch / ResetStats)",
+             "reused) and an independent ipc.Reader per schema id must decode every payload to the record that was written; statistics reads (GetAndResetStats) between batches are ops of the history given to the model (Batch / ResetStats); a fifth of the histories contain a Produce call that fails half-way (injected allocator refusal during an IPC write) and go on: Failed ops of the history given to the model, the following batches checked like all others",
         trusted_base=["arrow-go IPC writer/reader (one writer per live schema id; dictionary deltas/replacements; zstd) — validated on every run by the independent reader"],
         assumptions=["a stream key belongs to one payload type (consistent_inputs): main keys are schema signatures of different schemas, related keys carry a per-type prefix"],
     ),
@@ -217,7 +217,7 @@ PROPS = {
         rule="gen: the exported With* options and ordering variants of pkg/config extracted from the current source (must be within the known baseline); options: per case one choice of dictionary limit "
              "(default, none, 8/16/32/64 bit) x initial index x reset threshold (unset, 0, 0.3, 1, 5) x compression (default, zstd, none) x every OrderSpanBy x every OrderAttrs16By x every OrderAttrs32By "
              "(each variant at least once, then random), a history of 2-4 batches mixing generated telemetry with dictionary-pressure batches (90-330 fresh names, repeated 1-3 times: overflow and reset regimes, "
-             "crossing 255 within a batch and over the history), decoded by a DEFAULT consumer; equivalence predicate evaluated in Coq on real input/output (batches over 150 items by its Go mirror only); a quarter of the histories open with an all-zero batch (optional columns still absent)",
+             "crossing 255 within a batch and over the history), decoded by a DEFAULT consumer; equivalence predicate evaluated in Coq on real input/output (batches over 150 items by its Go mirror only); a quarter of the histories open with an all-zero batch (optional columns still absent); a sixth of the histories alternate the three signals on one producer over 7 batches",
         trusted_base=["Arrow transport assumption: index widths, dictionary overflow/reset and zstd do not change the logical record (validated by the independent reader of C12 on every run)",
                       "the option extractor (go/ast) and the classification in Stream/OptionsBaseline.v"],
         assumptions=["diagnostic options (statistics printing) and allocator/observer plumbing are not content options", "cardinalities crossing 65,535 are exercised in the thorough tier only"],
@@ -231,10 +231,10 @@ PROPS = {
         rule="genssa: every call of a pdata mutator method (Set*, Put*, Remove*, MoveTo, MoveAndAppendTo, AppendEmpty, EnsureCapacity, FromRaw, Clear, CopyTo, Sort) in the encoder-side packages, found on the "
              "type-checked syntax of the current source (must be none); memory: histories of 1-6 batches (one signal or interleaved; options default / no zstd / no dictionary / 8-bit limit overflow and reset; "
              "dictionary-pressure batches; a 65537-span batch refused with an error in the middle of some histories) on a producer given a memory.CheckedAllocator: proto bytes of every input before and after "
-             "encoding must be equal and the allocator must be back to 0 bytes after Close",
+             "encoding must be equal and the allocator must be back to 0 bytes after Close; a quarter of the memory histories run on a caller-supplied allocator that refuses one allocation during the IPC write of the k-th record of the stream (an encode error inside Produce)",
         trusted_base=["arrow-go builders/records/IPC writers release what they allocated when released/closed (library contract; the balance is measured on every run)",
                       "the typed-syntax extractor (go/packages)"],
-        assumptions=["write errors of the IPC writer are not reachable with valid input (the ledger shows later records would stay unreleased in that case)"],
+        assumptions=["allocator refusals are injected only during IPC writes (where arrow-go reports them as errors); elsewhere an Arrow allocator is expected to succeed"],
     ),
     "C16": dict(
         runs=[
@@ -251,7 +251,7 @@ PROPS = {
              "i.e. inside the encoders' loops — each stream's decoded output and the memory its consumer reports after every batch compared with the same stream run alone; all consumers of a case are built from one set of option values; "
              "the consumer of a stream follows its producer in one of three ways (alternating; lagging behind a queue of 1..n messages; in its own goroutine fed through a channel) and the decoded stream must be the same in all; "
              "every stream's produce/consume schedule is run through the message-ownership model (Indep/Alias.v: messages in flight are values) and what the real consumer decoded at each step must be the message the model reads (alias_mismatch); "
-             "genssa also lists option constructors that capture (or pass to another option constructor) reference-like state they created themselves (must be none)",
+             "genssa also lists option constructors that capture (or pass to another option constructor) reference-like state they created themselves (must be none); every fifth case gives stream 0 a value its own consumer refuses (a map nested 40 deep): the other, valid, streams must decode without a single error alone and beside it (valid-stream-fails)",
         trusted_base=["data-race freedom is outside the model (Go memory model); the go/ssa extractor", "instances share no state by construction (each NewProducer/NewConsumer builds its own builders, allocators, maps)"],
         assumptions=["race-detector runs are supporting evidence in the thorough tier only"],
     ),
